@@ -404,17 +404,44 @@ fn gen_field_attrs(rng: &mut Rng, traits: &[&str], idx: usize, rich: bool, named
             _ => {},
         }
         if let Some(mut a) = field_attr_for(rng, tr, idx, named) {
-            // two parameters in one request (`Ord(rank = 3, method(cmp))`, `Debug(name(x), method(f))`)
-            if rng.chance(1, 8) {
-                let extra = match *tr {
-                    "Ord" | "PartialOrd" if a.contains("rank") => Some(format!("method({})", method_path(rng, "cmp"))),
-                    "Ord" | "PartialOrd" if a.contains("method") => Some(format!("rank = {}", 100 + idx)),
-                    "Debug" if a.contains("method") && named => Some(format!("name(shown{idx})")),
-                    "Debug" if a.contains("name(") => Some(format!("method({})", method_path(rng, "fmt"))),
-                    _ => None,
-                };
-                if let (Some(e), Some(pos)) = (extra, a.rfind(')')) {
-                    a.insert_str(pos, &format!(", {e}"));
+            // two parameters in one request: any pair the parser accepts for this trait
+            // (`Ord(rank = 3, method(cmp))`, `Ord(ignore, rank = 2)`, `Debug(name(x), method(f))`, ...)
+            if rng.chance(1, 6) && a.ends_with(')') {
+                let mut cands: Vec<String> = vec![];
+                match *tr {
+                    "Ord" | "PartialOrd" => {
+                        cands.push("ignore".to_string());
+                        cands.push(format!("rank = {}", 100 + idx));
+                        cands.push(format!("method({})", method_path(rng, "cmp")));
+                    },
+                    "Debug" => {
+                        cands.push("ignore".to_string());
+                        if named {
+                            cands.push(format!("name(shown{idx})"));
+                        }
+                        cands.push(format!("method({})", method_path(rng, "fmt")));
+                    },
+                    "PartialEq" | "Hash" => {
+                        cands.push("ignore".to_string());
+                        cands.push(format!("method({})", method_path(rng, "eq")));
+                    },
+                    _ => {},
+                }
+                // keep only parameters of a kind the request does not have yet
+                cands.retain(|c| {
+                    let key = c.split(['(', ' ', '=']).next().unwrap_or("");
+                    !a.contains(key)
+                });
+                if !cands.is_empty() {
+                    let e = cands[rng.usize(cands.len())].clone();
+                    let pos = a.rfind(')').unwrap();
+                    if rng.chance(1, 2) {
+                        a.insert_str(pos, &format!(", {e}"));
+                    } else {
+                        // the extra parameter first
+                        let open = a.find('(').unwrap();
+                        a.insert_str(open + 1, &format!("{e}, "));
+                    }
                 }
             }
             if rng.chance(1, 7) {
